@@ -55,23 +55,22 @@ def refAgrees (r B : Int) : Ref → List (Int × Out) → Bool
     (if s.2 then o.remaining == s.1.level / 512 else (o.remaining == 0 && resetTruthful r B x t o.reset)) &&
     refAgrees r B s.1 rest
 
-def minL : List Int → Int
-  | [] => 0
-  | [a] => a
-  | a :: rest => min a (minL rest)
-def maxL : List Int → Int
-  | [] => 0
-  | [a] => a
-  | a :: rest => max a (maxL rest)
+/-- one start position of the admission bound, scanned forward: `cnt` admissions so far, all
+    timestamps so far within `[lo, hi]`; after every further call the run admitted so far must fit
+    `(B + r·(hi − lo))/512` -/
+def boundScan (r B : Int) : Int → Int → Int → List (Int × Out) → Bool
+  | _, _, _, [] => true
+  | cnt, lo, hi, (t, o) :: rest =>
+    decide (512 * (cnt + (if o.allowed then 1 else 0)) ≤ B + r * (max hi t - min lo t)) &&
+    boundScan r B (cnt + (if o.allowed then 1 else 0)) (min lo t) (max hi t) rest
 
-/-- every contiguous run of one key's calls admits at most `(B + r·T)/512` of them, `T` the spread of
-    its timestamps -/
-def boundFrom (r B : Int) (calls : List (Int × Out)) : Bool :=
-  (List.range (calls.length + 1)).all fun n =>
-    let seg := calls.take n
-    let ts := seg.map (·.1)
-    decide (512 * ((seg.filter (·.2.allowed)).length : Int) ≤ B + r * (maxL ts - minL ts))
+/-- every contiguous run of one key's calls that starts at the head of the list admits at most
+    `(B + r·T)/512` of them, `T` the spread of its timestamps -/
+def boundFrom (r B : Int) : List (Int × Out) → Bool
+  | [] => true
+  | (t, o) :: rest => boundScan r B 0 t t ((t, o) :: rest)
 
+/-- … and so does every contiguous run, wherever it starts -/
 def boundOK (r B : Int) : List (Int × Out) → Bool
   | [] => true
   | c :: rest => boundFrom r B (c :: rest) && boundOK r B rest
